@@ -149,6 +149,13 @@ def one_dataset(obs, rng, conv, spec, force_kw=None):
         kw['bowtie'] = True
         kw['bounds'] = 'var'
         kw['nj'], kw['ni'] = int(rng.integers(3, 6)), int(rng.integers(3, 6))
+    if conv == 'ugrid' and not force_kw and chance(rng, 0.3):
+        # faces that list mid-side nodes: vertices exactly on the straight line between their neighbours; the exported
+        # outline has those vertices too (the other half: hanging nodes that the long face does not list)
+        from ..model.ugrid import hanging_mesh
+        mesh, winding = hanging_mesh(rng, midside=chance(rng, 0.7))
+        kw.update(mesh=mesh, winding=winding)
+        obs.cls('dataset:faces-with-collinear-vertices')
     from ..model.grids import cell_scale
     scale = 1.0
     if not force_kw and chance(rng, 0.15):
